@@ -39,8 +39,8 @@ def Filon_COS(C: npt.NDArray, t: npt.NDArray, a: float = 0, outputfile: str = ""
         a = 2 * np.pi / t[-1]
 
     Nmax = len(C)
-    dt = round(t[1] - t[0], 3)
-    if dt != round(t[-1] - t[-2], 3):
+    dt = t[1] - t[0]
+    if not np.isclose(t[-1] - t[-2], dt):
         raise ValueError("time is not evenly distributed")
 
     results = pd.DataFrame(0, index=range(Nmax), columns="omega FFT".split()).astype("float64")
